@@ -116,7 +116,7 @@ def gen_case(rng, docopts, hostile_ids=None):
         else:
             scope = rng.choice(['user', 'project', 'both', 'both'])
         targets[t] = {'scope': scope, 'options': gen_options(rng, t, docopts)}
-    names = ['one', 'two', 'dup', 'team/x', 'x', 'Z', 'über', 'with space']
+    names = ['one', 'two', 'dup', 'team/x', 'x', 'Z', 'über', 'with space', 'alpha:tool', 'beta:tool', 'a:b:c', ':lead', 'trail:']
     CONSUMES = {'codex': ['instructions', 'skill', 'prompt'], 'claude_code': ['command', 'skill'], 'cursor': ['instructions'],
                 'vscode': ['instructions', 'prompt'], 'jetbrains': ['instructions'], 'zed': ['instructions']}
     wanted = [ty for t in tnames for ty in CONSUMES[t]]
